@@ -58,6 +58,10 @@ pub fn transcode(t: &mut Tape<'_>, s: &str, enc: &'static Encoding, safe_only: b
 
 pub fn input(t: &mut Tape<'_>, o: &InputOpts) -> (Vec<u8>, &'static Encoding) {
     let enc = pick_encoding(t, o.all_encodings);
+    (input_in(t, o, enc), enc)
+}
+
+pub fn input_in(t: &mut Tape<'_>, o: &InputOpts, enc: &'static Encoding) -> Vec<u8> {
     let raw = o.allow_raw && !o.safe_only;
     let kind = t.weighted(&[8, if raw { 2 } else { 0 }, if raw { 1 } else { 0 }]);
     let bytes = match kind {
@@ -69,7 +73,7 @@ pub fn input(t: &mut Tape<'_>, o: &InputOpts) -> (Vec<u8>, &'static Encoding) {
         1 => soup(t, &SoupOpts { max_frags: o.max_frags, foreign: o.foreign, raw_bytes: true }),
         _ => gbytes(t, 64),
     };
-    (bytes, enc)
+    bytes
 }
 
 /// Is position `p` (0<p<len) strictly inside an angle-bracket construct or a multi-byte char?
